@@ -128,8 +128,8 @@ func genCtrlPoolEdit(rt *rapid.T, cur vw.ClusterSpec) vw.ClusterSpec {
 	case 10:
 		n.Namespaces = vw.GenNamespaces(rt, 2)
 	}
-	if len(n.Pools) == 0 {
-		n.Pools = vw.GenPools(rt, ctrlClusterOpts)
+	if len(n.Pools) == 0 && rapid.Bool().Draw(rt, "keepNoPools") {
+		n.Pools = vw.GenPools(rt, ctrlClusterOpts) // otherwise: the last pool was deleted
 	}
 	return n
 }
